@@ -198,10 +198,11 @@ def explore_c07(ctx, res, replay_ops=None):
             continue
         before = render()
         res.evaluations += 1
-        if len(t) == 12 and t[11].startswith("e"):
-            # a chosen End-to-End Identifier (a client may reuse one): what the server must do does not depend on it
-            res.dist["end-to-end-id:chosen"] += 1
-            t = t[:11]
+        while len(t) > 11 and t[-1][:1] in ("e", "v"):
+            # a chosen End-to-End Identifier (a client may reuse one) / a Service-Identifier in the MSCC: what the server must do
+            # depends on neither
+            res.dist["end-to-end-id:chosen" if t[-1][0] == "e" else "service-identifier:given"] += 1
+            t = t[:-1]
         rsu, usu = int(t[9]), int(t[10])
         in_domain = rsu < 2 ** 63 and usu < 2 ** 63
         act, ty = int(t[5].rstrip("-")), int(t[3])
